@@ -537,9 +537,16 @@ package main
 //@ fieldinv Route.routeParams: forall k int :: 0 <= k && k < len($v) ==> allocated($v[k])
 
 //@ func parseViaParam
-//@   props C02 C08
+//@   props C02 C08 C14
+//@   uses kvtext split
 //@   ensures err == nil ==> result != nil && fresh(result)
 //@   ensures err != nil ==> result == nil
+//@   ensures every-parameter-decoded: err == nil ==> len(result.Params) == len(split(viaParam, ";")) - 1
+//@        && (forall j int :: 1 <= j && j < len(split(viaParam, ";")) ==> result.Params[j - 1] == kvOfText(split(viaParam, ";")[j]))
+//@   loop 0:
+//@     invariant 0 <= $i && $i <= len(split(viaParam, ";")) && via != nil && fresh(via)
+//@     invariant len(via.Params) == ($i == 0 ? 0 : $i - 1)
+//@     invariant forall j int :: 1 <= j && j < $i ==> via.Params[j - 1] == kvOfText(split(viaParam, ";")[j])
 
 //@ func ParseVia
 //@   props C02 C08
@@ -1011,6 +1018,21 @@ package main
 //@        && (err == nil ==> host == bcHost[len(old(bcHost))] && port == bcPort[len(old(bcPort))] && transport == bcTransport[len(old(bcTransport))])
 
 // ---- is the request for the service? (C03, third rule) ----
+
+// every configured name is kept as a literal and, when it compiles, also as a pattern
+//@ func NewMyName
+//@   props C03
+//@   uses split regexp
+//@   ensures result != nil && fresh(result)
+//@   ensures every-name-kept: len(result.names) == len(split(name, ","))
+//@        && (forall j int :: 0 <= j && j < len(result.names) ==> result.names[j] == trimSpace(split(name, ",")[j]))
+//@   ensures every-valid-name-is-a-pattern: forall j int :: 0 <= j && j < len(result.names) && reValid(result.names[j]) ==>
+//@        (exists k int :: 0 <= k && k < len(result.patterns) && result.patterns[k] != nil && rePattern(result.patterns[k]) == result.names[j])
+//@   loop 0:
+//@     invariant 0 <= $i && $i <= len(split(name, ",")) && myName != nil && fresh(myName) && len(myName.names) == $i
+//@     invariant forall j int :: 0 <= j && j < $i ==> myName.names[j] == trimSpace(split(name, ",")[j])
+//@     invariant forall j int :: 0 <= j && j < $i && reValid(myName.names[j]) ==>
+//@        (exists k int :: 0 <= k && k < len(myName.patterns) && myName.patterns[k] != nil && rePattern(myName.patterns[k]) == myName.names[j])
 
 //@ func (*MyName).matchAbsoluteURI
 //@   props C03
